@@ -193,12 +193,7 @@ func (i Int32) ExponentiateInt32(other Int32) Int32 {
 	if other <= 0 {
 		return 1
 	}
-	result := i
-	var j Int32
-	for j = 2; j <= other; j++ {
-		result *= i
-	}
-	return result
+	return StrictIntExponentiate(i, other)
 }
 
 func (i Int32) Subtract(other Value) (Int32, Value) {
